@@ -523,12 +523,30 @@ def proof_stage(res, module, theorems, refuted=()):
         "trusted_base": list(TRUSTED_BASE_COMMON),
     })
     detail["broken"] = broken
+    if ok and not broken and res.tier == "thorough" and os.environ.get("VERIF_NO_COQCHK") != "1":
+        coqchk(res, module)
     if not ok:
         tail = "\n".join(out.strip().split("\n")[-40:])
         detail["make_log_tail"] = tail
         # which files failed?
         detail["failed_files"] = re.findall(r"File \"\./([^\"]+)\", line", out)
     return (ok and not broken), detail
+
+
+def coqchk(res, module, timeout=3000):
+    """Thorough tier: re-check Properties/<module>.vo and everything it depends
+    on with the independent checker, and record the axioms it lists."""
+    rc, out = run(["coqchk", "-silent", "-o", "-Q", "theories", "Shk", "Shk.Properties.%s" % module],
+                  cwd=COQ, timeout=timeout)
+    m = re.search(r"\* Axioms:(.*?)\n\s*\n\* Constants", out, re.S)
+    axioms = " ".join(m.group(1).split()) if m else "<unparsed>"
+    res.coverage["coqchk"] = {"exit": rc, "axioms": axioms,
+                              "cmd": "coqchk -silent -o -Q theories Shk Shk.Properties.%s" % module}
+    if rc != 0 or axioms != "<none>":
+        res.violation(None, "coqchk does not accept Properties/%s.vo axiom-free: exit %s, axioms %s" % (module, rc, axioms),
+                      {"kind": "proof-obligation", "coqchk_output": out[-3000:]}, no_input=True)
+        return False
+    return True
 
 
 def std_args(argv=None):
